@@ -183,8 +183,8 @@ def oracle(rq, impl):
     if v != 0:
         k = nc.floor_log10(v)
         msp = int(a["msp"])
-        if not (msp == k or (msp == k + 1 and v * (1 + Fraction(1, 2 ** 43)) >= Fraction(10) ** (k + 1))):
-            return "MSP(val) = %d, exact %d" % (msp, k)
+        if msp != k:
+            return "MSP(val) = %d, exact floor(log10 |val|) = %d" % (msp, k)
     rc = int(a["rc"])
     if t[1] == "i":
         scale, ml = int(t[4]), int(t[5])
@@ -241,10 +241,4 @@ def classify(rq, impl):
 
 
 def finding_class(rq, impl, model, why):
-    if why and why.startswith("plain notation") and "leading zeroes" in why:
-        a = nc.kv(impl.split("|")[0])
-        t = rq.split()
-        v = abs(nc.frac_of(nc.parse_dbl(t[2])))
-        if v != 0 and int(a["msp"]) == nc.floor_log10(v) + 1:
-            return "MSP(val) over-estimated by libm log10 just below a power of ten"
     return None
